@@ -134,7 +134,7 @@ func (c *connection) write() {
 	for {
 		select {
 		case <-c.stopChan:
-			clear(record)
+			c.onStopEvent(record)
 			return
 		case activeMsg, ok := <-c.activeMsgChan: // 平台主动下发的
 			if ok {
@@ -256,6 +256,25 @@ func (c *connection) onActiveEvent(activeMsg *ActiveMessage, record map[uint16]*
 			case c.activeMsgCompleteChan <- overtimeMsg:
 			}
 		}(replyMsg)
+	}
+}
+
+// onStopEvent 连接断开时 还在等待终端回复的 和 已经排队还没下发的 都要通知调用方 不然调用方会一直阻塞
+func (c *connection) onStopEvent(record map[uint16]*ActiveMessage) {
+	for seq, v := range record {
+		v.replyChan <- newErrMessage(errors.Join(ErrNotExistKey,
+			fmt.Errorf("connection closed key=[%s] seq=[%d]", v.Key, seq)))
+	}
+	clear(record)
+	// stop里面先leave再关闭stopChan 所以这里之后不会再有新的下发进来
+	for {
+		select {
+		case activeMsg := <-c.activeMsgChan:
+			activeMsg.replyChan <- newErrMessage(errors.Join(ErrNotExistKey,
+				fmt.Errorf("connection closed key=[%s]", activeMsg.Key)))
+		default:
+			return
+		}
 	}
 }
 
